@@ -75,6 +75,12 @@ Proof.
   destruct (_ || _); [exact Hs|]. apply deliver_as_ok. exact Hs.
 Qed.
 
+Lemma lose_all_ok L k : forall sm, sim_ok sm -> sim_ok (lose_all L k sm).
+Proof.
+  unfold lose_all. induction (seq 0 L) as [|i l IH]; intros sm H; cbn [fold_left]; [exact H|].
+  apply IH. apply mark_seen_ok. exact H.
+Qed.
+
 Lemma sync_one_ok sm k a : sim_ok sm -> sync_one sm k = Some a -> acc_ok a.
 Proof.
   intros H. unfold sync_one. destruct (nth_error (s_nodes sm) k) as [nd|]; [|discriminate].
@@ -146,6 +152,7 @@ Proof.
   - destruct (sync_one sm k) eqn:E; [eapply sync_one_ok; eassumption|exact H].
   - apply deliver_sel_ok; exact H.
   - apply deliver_sel_ok; exact H.
+  - apply acc0_ok. apply lose_all_ok; exact H.
   - apply round_ok; exact H.
 Qed.
 
